@@ -367,7 +367,15 @@ impl AVP {
         reader: &mut impl Reader<T>,
     ) -> Vec<DecodeResult<Self>> {
         let mut result = Vec::new();
-        while let Some(header) = Header::try_read(reader) {
+        loop {
+            let header = match Header::try_read(reader) {
+                Ok(Some(header)) => header,
+                Ok(None) => break,
+                Err(e) => {
+                    result.push(Err(e));
+                    break;
+                }
+            };
             if header.payload_length as usize > reader.len() {
                 result.push(Err(DecodeError::InvalidAVPLength(header.payload_length)));
                 break;
